@@ -50,6 +50,9 @@ def gen_ast(rng):
             if rng.random() < 0.3:
                 # the kernel also takes a scalar operand: the index-dependent offset, or a value from outside of the loop
                 op["scalar"] = rng.choice(["%off", "%sta", "%sta"])
+            elif rng.random() < 0.15:
+                # the body of the kernel uses a value of the enclosing scope directly (not as an operand)
+                op["capture"] = rng.choice(["%off", "%i", "%sta"])
             ops.append(op)
         r = rng.random()
         if r < 0.2 and (s > 0 or odd):
@@ -121,7 +124,9 @@ def op_text(o, view_tmps=0):
     return (
         f'linalg.generic {{indexing_maps = [{maps}], iterator_types = ["parallel"], doc = "k{o["tag"]}"}} '
         f'ins({", ".join(ins)} : {", ".join(tys)}) outs({o["dst"]} : {btype(o["dst"])}) {{\n^bb0({args}):\n'
-        + (f"  %acc_new = arith.addi %x0, %x{n} : i32\n  linalg.yield %acc_new : i32\n}}" if o.get("accum") else "  linalg.yield %x0 : i32\n}")
+        + (f"  %acc_new = arith.addi %x0, %x{n} : i32\n  linalg.yield %acc_new : i32\n}}" if o.get("accum")
+           else f"  %cap = arith.index_cast {o['capture']} : index to i32\n  %capr = arith.addi %x0, %cap : i32\n  linalg.yield %capr : i32\n}}" if o.get("capture")
+           else "  linalg.yield %x0 : i32\n}")
     )
 
 
@@ -265,9 +270,9 @@ def shrink_ast(ast):
             yield dict(ast, **{flag: False})
     for s_, ops_ in enumerate(ast["stages"]):
         for j_, o_ in enumerate(ops_):
-            if o_.get("scalar"):
+            if o_.get("scalar") or o_.get("capture"):
                 ns_ = [list(x) for x in ast["stages"]]
-                ns_[s_][j_] = {k_: v_ for k_, v_ in o_.items() if k_ != "scalar"}
+                ns_[s_][j_] = {k_: v_ for k_, v_ in o_.items() if k_ not in ("scalar", "capture")}
                 yield dict(ast, stages=ns_)
     for s, ops in enumerate(ast["stages"]):
         if len(ops) > 1:
